@@ -107,6 +107,30 @@ class Marker:
         return ("T", sample)
 
 
+def _bump(v):
+    """what an in-place post-cache transform does: +1 on every tensor / ndarray inside the sample (in place)"""
+    if torch.is_tensor(v):
+        v.add_(1)
+    elif isinstance(v, np.ndarray):
+        v += 1
+    elif isinstance(v, (list, tuple)):
+        for x in v:
+            _bump(x)
+    elif isinstance(v, dict):
+        for x in v.values():
+            _bump(x)
+    return v
+
+
+class InplaceMarker(Marker):
+    """post-cache transform that works IN PLACE on the sample it is given (as KDImageRangeNorm does by default): the cached
+    copy must not be affected, every access must return transform(base[i])"""
+
+    def __call__(self, sample):
+        super().__call__(sample)
+        return ("T", _bump(sample))
+
+
 def _kd_marker(log_path):
     """the same post-cache transform as a KDTransform subclass (reports is_deterministic=True like every plain KDTransform,
     yet must still be applied on every access - the property does not exempt 'deterministic' transforms)"""
@@ -151,7 +175,7 @@ class _Tail:
 # ------------------------------------------------------------------------------------------------ generation
 def gen_cases(run):
     rng = run.rng
-    n_seq = run.n(400, 16000)
+    n_seq = run.n(320, 16000)
     n_conc = run.n(12, 320)
     for i in range(n_seq):
         nkeys = rng.choice([1, 2, 3, 5, 8])
@@ -166,7 +190,10 @@ def gen_cases(run):
                 ops.append(["iter"])                          # list(cached): legacy __getitem__ iteration protocol, ends with IndexError
             else:
                 ops.append(["get", rng.randrange(nkeys)])
-        yield {"kind": "seq", "payload": PAYLOADS[i % len(PAYLOADS)], "nkeys": nkeys, "ops": ops, "transform": rng.choice([True, True, "kd", "kd", False])}
+        payload = PAYLOADS[i % len(PAYLOADS)]
+        # in-place / KDTransform-typed transforms only on payloads that contain tensors or arrays (keeps the number of Manager processes down)
+        kinds = [True, "inplace", "kd", "inplace", False] if payload in ("tensor", "tuple", "dict", "nested", "ndarray") else [True, True, False]
+        yield {"kind": "seq", "payload": payload, "nkeys": nkeys, "ops": ops, "transform": rng.choice(kinds)}
     for i in range(n_conc):
         readers = rng.choice([2, 3, 4, 6, 8, 12]) if run.tier == "thorough" else rng.choice([2, 3, 4, 6])
         yield {"kind": "conc", "payload": rng.choice(["tensor", "tuple", "dict", "bytes", "int"]), "nkeys": rng.choice([1, 2, 3]), "readers": readers,
@@ -180,6 +207,8 @@ def _new_cache(tmp, kind, nkeys, transform=True, sleep_us=0):
     tr = None
     if transform == "kd":
         tr = _kd_marker(str(tmp / "transform.log"))
+    elif transform == "inplace":
+        tr = InplaceMarker(str(tmp / "transform.log"))
     elif transform:
         tr = Marker(str(tmp / "transform.log"))
     return SharedDictDataset(base, transform=tr), base
@@ -213,7 +242,11 @@ def run_case(run, spec):
         return _run_concurrent(run, spec)
     cached, tmp, tail_loads, tail_tr = _pooled(spec["payload"], spec["transform"])
     run.cover("seq", spec["payload"], spec["nkeys"], spec["transform"], any(o[0] == "clear" for o in spec["ops"]))
-    want = {i: _digest(("T", _payload(spec["payload"], i)) if spec["transform"] else _payload(spec["payload"], i)) for i in range(spec["nkeys"])}
+    def _expected(q):
+        if spec["transform"] == "inplace":
+            return ("T", _bump(_payload(spec["payload"], q)))
+        return ("T", _payload(spec["payload"], q)) if spec["transform"] else _payload(spec["payload"], q)
+    want = {i: _digest(_expected(i)) for i in range(spec["nkeys"])}
     if len(cached) != 8 or cached.marker != "base-attr":
         run.violation("seq:delegation", f"len / attribute delegation of the cached dataset: len={len(cached)}, marker={getattr(cached, 'marker', None)!r}")
         return
@@ -248,7 +281,7 @@ def run_case(run, spec):
             except Exception as e:
                 run.violation(f"seq:iteration-raises:{type(e).__name__}", f"step {step}: list(cached) raised {type(e).__name__}: {e}")
                 return
-            want_all = [_digest(("T", _payload(spec["payload"], q)) if spec["transform"] else _payload(spec["payload"], q)) for q in range(8)]
+            want_all = [_digest(_expected(q)) for q in range(8)]
             if [_digest(v) for v in got_all] != want_all:
                 run.violation("seq:iteration", f"step {step}: iterating the cached dataset yields {len(got_all)} samples / different values; the wrapped dataset yields its 8 samples")
                 return
@@ -270,7 +303,8 @@ def run_case(run, spec):
             return
         run.count("sequential_reads_checked")
         if _digest(got) != want[i]:
-            run.violation("seq:value", f"payload={spec['payload']} step {step}: cached[{i}] = {repr(got)[:160]} differs from transform(base[{i}])")
+            key = "seq:value:in-place-transform-reaches-the-cached-copy" if spec["transform"] == "inplace" else "seq:value"
+            run.violation(key, f"payload={spec['payload']} transform={spec['transform']} step {step}: cached[{i}] = {repr(got)[:160]} differs from transform(base[{i}])")
             return
         new_loads, new_tr = tail_loads.new(), tail_tr.new()
         run.count("loads_observed", len(new_loads))
